@@ -3,12 +3,65 @@
 //! abstract state of spec/NameBuilder.tla, and the builder calls.
 #![allow(dead_code)]
 
+use bytes::BytesMut;
 use domain::base::name::{Name, NameBuilder, RelativeName};
 use domain::base::scan::Symbol;
+use domain::base::name::ParsedName;
+use octseq::builder::{FreezeBuilder, OctetsBuilder};
+use octseq::OctetsFrom;
 use serde_json::{json, Value};
 use std::panic::{catch_unwind, AssertUnwindSafe};
 
 pub type B = NameBuilder<Vec<u8>>;
+
+/// The ways of making an empty builder over one kind of octets (every
+/// constructor is a route to the model's initial state).
+pub trait Ctor: Sized {
+    const KIND: &'static str;
+    fn ctor(i: usize) -> NameBuilder<Self>;
+    /// a builder that continues an existing relative name
+    fn from_rel(rel: RelativeName<Vec<u8>>, i: usize) -> NameBuilder<Self>;
+}
+impl Ctor for Vec<u8> {
+    const KIND: &'static str = "vec";
+    fn ctor(i: usize) -> NameBuilder<Self> {
+        match i % 7 {
+            0 => NameBuilder::new_vec(),
+            1 => NameBuilder::vec_with_capacity(i % 300),
+            2 => NameBuilder::new(),
+            3 => NameBuilder::with_capacity((i * 7) % 300),
+            4 => Default::default(),
+            5 => NameBuilder::from_builder(Vec::new()).expect("from_builder on an empty buffer"),
+            _ => RelativeName::empty_vec().into_builder(),
+        }
+    }
+    fn from_rel(rel: RelativeName<Vec<u8>>, i: usize) -> NameBuilder<Self> {
+        match i % 2 {
+            0 => rel.into_builder(),
+            _ => NameBuilder::from_builder(rel.as_slice().to_vec()).expect("from_builder on a valid relative name"),
+        }
+    }
+}
+impl Ctor for BytesMut {
+    const KIND: &'static str = "bytes";
+    fn ctor(i: usize) -> NameBuilder<Self> {
+        match i % 7 {
+            0 => NameBuilder::new_bytes(),
+            1 => NameBuilder::bytes_with_capacity(i % 300),
+            2 => NameBuilder::new(),
+            3 => NameBuilder::with_capacity((i * 7) % 300),
+            4 => Default::default(),
+            5 => NameBuilder::from_builder(BytesMut::new()).expect("from_builder on an empty buffer"),
+            _ => RelativeName::empty_bytes().into_builder(),
+        }
+    }
+    fn from_rel(rel: RelativeName<Vec<u8>>, i: usize) -> NameBuilder<Self> {
+        match i % 2 {
+            0 => RelativeName::<bytes::Bytes>::octets_from(rel).into_builder(),
+            _ => NameBuilder::from_builder(BytesMut::from(rel.as_slice())).expect("from_builder on a valid relative name"),
+        }
+    }
+}
 
 /// Independent walk over uncompressed relative-name wire format: content
 /// lengths of the labels, or None if the octets are not a sequence of
@@ -64,8 +117,16 @@ impl Fill {
 /// The open label's start is not observable through the API, so a clone is
 /// finished (end_label writes the length octet) and the result is walked;
 /// the unfinished buffer must differ from it in that one octet at most.
-pub fn proj(b: &B) -> Value {
+pub fn proj<T>(b: &NameBuilder<T>) -> Value
+where
+    T: OctetsBuilder + AsRef<[u8]> + AsMut<[u8]> + FreezeBuilder + Clone,
+    T::Octets: AsRef<[u8]>,
+{
     let len = b.len();
+    // (AsRef<[u8]> of the builder is as_slice)
+    if AsRef::<[u8]>::as_ref(b) != b.as_slice() || b.is_empty() != (len == 0) {
+        return json!([len, b.in_label() as u8, -2, -2, 0]);
+    }
     let open = b.in_label();
     let fin = b.clone().finish();
     let f = fin.as_slice();
@@ -137,7 +198,11 @@ pub const ATOMIC: [&str; 5] = ["push", "append_slice", "append_label", "append_n
 /// Perform one call of the model on the real builder.  Returns the
 /// result class and, for the consuming calls (done on a clone), the
 /// description of the produced name.
-pub fn apply(b: &mut B, op: &str, arg: &Value, fill: &mut Fill) -> (String, Value) {
+pub fn apply<T>(b: &mut NameBuilder<T>, op: &str, arg: &Value, fill: &mut Fill) -> (String, Value)
+where
+    T: OctetsBuilder + AsRef<[u8]> + AsMut<[u8]> + FreezeBuilder + Clone,
+    T::Octets: AsRef<[u8]>,
+{
     let none = json!(["none", 0, 1]);
     let n0 = arg.get(0).and_then(|x| x.as_u64()).unwrap_or(0) as usize;
     let r = catch_unwind(AssertUnwindSafe(|| -> (bool, Value) {
@@ -150,32 +215,58 @@ pub fn apply(b: &mut B, op: &str, arg: &Value, fill: &mut Fill) -> (String, Valu
             }
             "append_label" => (b.append_label(&fill.bytes(n0)).is_ok(), none.clone()),
             "append_name" => {
+                // (any representation of the relative name)
                 let rel = rel_of(arg, fill);
-                (b.append_name(&rel).is_ok(), none.clone())
+                let r = match fill.0 % 3 {
+                    0 => b.append_name(&rel).is_ok(),
+                    1 => b.append_name(&rel.for_ref()).is_ok(),
+                    _ => {
+                        let cut = rel.first().map(|l| l.len() + 1).unwrap_or(0);
+                        let (l, r) = rel.split(cut);
+                        match l.chain(r) {
+                            Ok(ch) => b.append_name(&ch).is_ok(),
+                            Err(_) => b.append_name(&rel).is_ok(),
+                        }
+                    }
+                };
+                (r, none.clone())
             }
             "append_digits" => match n0 {
                 1 => {
                     // one digit: both entry points must agree
                     let mut c = b.clone();
-                    let rc = c.append_hex_digit_label(0xAB).is_ok();
-                    let rb = b.append_dec_u8_label(7).is_ok();
+                    let rc = c.append_hex_digit_label((fill.0 % 16) as u8).is_ok();
+                    let rb = b.append_dec_u8_label((fill.0 % 10) as u8).is_ok();
                     if rc != rb || proj(&c) != proj(b) {
                         (rb, json!(["digit_calls_disagree", 0, 0]))
                     } else {
                         (rb, none.clone())
                     }
                 }
-                2 => (b.append_dec_u8_label(42).is_ok(), none.clone()),
-                _ => (b.append_dec_u8_label(205).is_ok(), none.clone()),
+                2 => (b.append_dec_u8_label(10 + (fill.0 % 90) as u8).is_ok(), none.clone()),
+                _ => (b.append_dec_u8_label(100 + (fill.0 % 156) as u8).is_ok(), none.clone()),
             },
             "push_symbol" => {
                 let s = match arg.as_str().unwrap_or("") {
                     "dot" => Symbol::Char('.'),
                     "escdot" => Symbol::SimpleEscape(b'.'),
                     "bracket" => Symbol::SimpleEscape(b'['),
-                    "ord" => Symbol::Char('x'),
-                    "dec" => Symbol::DecimalEscape(0),
-                    _ => Symbol::Char('\u{e9}'),
+                    // (any member of the class: the model does not look at contents)
+                    "ord" => match fill.0 % 6 {
+                        0 => Symbol::Char('x'),
+                        1 => Symbol::Char('~'),
+                        2 => Symbol::Char(' '),
+                        3 => Symbol::Char('!'),
+                        4 => Symbol::SimpleEscape(b'~'),
+                        _ => Symbol::SimpleEscape(b' '),
+                    },
+                    "dec" => Symbol::DecimalEscape(fill.next()),
+                    _ => match fill.0 % 4 {
+                        0 => Symbol::Char('\u{e9}'),
+                        1 => Symbol::Char('\u{7f}'),
+                        2 => Symbol::Char('\u{1f}'),
+                        _ => Symbol::Char('\u{80}'),
+                    },
                 };
                 (b.push_symbol(s).is_ok(), none.clone())
             }
@@ -188,8 +279,14 @@ pub fn apply(b: &mut B, op: &str, arg: &Value, fill: &mut Fill) -> (String, Valu
                 Err(_) => (false, none.clone()),
             },
             "append_origin" => {
+                // (any representation of the absolute name)
                 let org = abs_of(arg, fill);
-                match b.clone().append_origin(&org) {
+                let r = match fill.0 % 3 {
+                    0 => b.clone().append_origin(&org),
+                    1 => b.clone().append_origin(&ParsedName::from(org.clone())),
+                    _ => b.clone().append_origin(&org.clone().into_relative().chain_root()),
+                };
+                match r {
                     Ok(n) => (true, out_abs(n.as_slice())),
                     Err(_) => (false, none.clone()),
                 }
@@ -209,7 +306,11 @@ pub fn is_consuming(op: &str) -> bool {
 }
 
 /// `Obs` of MC_NameBuilder.tla
-pub fn obs(b: &B, op: &str, res: &str, out: Value) -> Value {
+pub fn obs<T>(b: &NameBuilder<T>, op: &str, res: &str, out: Value) -> Value
+where
+    T: OctetsBuilder + AsRef<[u8]> + AsMut<[u8]> + FreezeBuilder + Clone,
+    T::Octets: AsRef<[u8]>,
+{
     if is_consuming(op) {
         json!({"r": res, "o": out})
     } else if out[0] != "none" {
@@ -223,7 +324,11 @@ pub fn obs(b: &B, op: &str, res: &str, out: Value) -> Value {
 
 /// Build a real builder whose projection is `s` = [len, open, cur, nlab, 1]
 /// using only label-at-a-time calls well inside the limits.
-pub fn construct(s: &Value, fresh: bool, fill: &mut Fill) -> Option<B> {
+pub fn construct<T>(s: &Value, fresh: bool, fill: &mut Fill) -> Option<NameBuilder<T>>
+where
+    T: OctetsBuilder + AsRef<[u8]> + AsMut<[u8]> + FreezeBuilder + Clone + Ctor,
+    T::Octets: AsRef<[u8]>,
+{
     let g = |i: usize| s[i].as_i64().unwrap_or(-1);
     let (len, open, cur, nlab) = (g(0), g(1) == 1, g(2), g(3));
     if g(4) != 1 || len < 0 || cur < 0 || nlab < 0 {
@@ -234,7 +339,7 @@ pub fn construct(s: &Value, fresh: bool, fill: &mut Fill) -> Option<B> {
     if content < nlab || content > 63 * nlab {
         return None;
     }
-    let mut b = B::new_vec();
+    let mut b = T::ctor(fill.0 + nlab as usize);
     for i in 0..nlab {
         let left = nlab - i - 1;
         let sz = std::cmp::min(63, content - left);
@@ -258,5 +363,127 @@ pub fn construct(s: &Value, fresh: bool, fill: &mut Fill) -> Option<B> {
         Some(b)
     } else {
         None
+    }
+}
+
+// ---------------------------------------------------------------------------
+/// A minimal serde format that is not human readable: a value is a newtype
+/// around its octets.  (serde_json is the human-readable counterpart; the
+/// name types serialize as text there and as wire format here.)
+pub mod compact {
+    use serde::de::{self, Visitor};
+    use serde::ser::{self, Impossible, Serialize};
+    use std::fmt;
+
+    #[derive(Debug)]
+    pub struct E(pub String);
+    impl fmt::Display for E {
+        fn fmt(&self, f: &mut fmt::Formatter<'_>) -> fmt::Result {
+            f.write_str(&self.0)
+        }
+    }
+    impl std::error::Error for E {}
+    impl ser::Error for E {
+        fn custom<T: fmt::Display>(m: T) -> Self {
+            E(m.to_string())
+        }
+    }
+    impl de::Error for E {
+        fn custom<T: fmt::Display>(m: T) -> Self {
+            E(m.to_string())
+        }
+    }
+
+    pub struct Ser;
+    macro_rules! no {
+        ($($f:ident($($t:ty),*);)*) => { $(fn $f(self $(, _: $t)*) -> Result<Vec<u8>, E> { Err(E("unsupported".into())) })* };
+    }
+    type Imp = Impossible<Vec<u8>, E>;
+    impl ser::Serializer for Ser {
+        type Ok = Vec<u8>;
+        type Error = E;
+        type SerializeSeq = Imp;
+        type SerializeTuple = Imp;
+        type SerializeTupleStruct = Imp;
+        type SerializeTupleVariant = Imp;
+        type SerializeMap = Imp;
+        type SerializeStruct = Imp;
+        type SerializeStructVariant = Imp;
+        fn is_human_readable(&self) -> bool {
+            false
+        }
+        fn serialize_bytes(self, v: &[u8]) -> Result<Vec<u8>, E> {
+            Ok(v.to_vec())
+        }
+        fn serialize_newtype_struct<T: ?Sized + Serialize>(self, _: &'static str, v: &T) -> Result<Vec<u8>, E> {
+            v.serialize(self)
+        }
+        no! {
+            serialize_bool(bool); serialize_i8(i8); serialize_i16(i16); serialize_i32(i32); serialize_i64(i64);
+            serialize_u8(u8); serialize_u16(u16); serialize_u32(u32); serialize_u64(u64);
+            serialize_f32(f32); serialize_f64(f64); serialize_char(char); serialize_str(&str);
+            serialize_none(); serialize_unit(); serialize_unit_struct(&'static str);
+            serialize_unit_variant(&'static str, u32, &'static str);
+        }
+        fn serialize_some<T: ?Sized + Serialize>(self, _: &T) -> Result<Vec<u8>, E> {
+            Err(E("unsupported".into()))
+        }
+        fn serialize_newtype_variant<T: ?Sized + Serialize>(
+            self, _: &'static str, _: u32, _: &'static str, _: &T,
+        ) -> Result<Vec<u8>, E> {
+            Err(E("unsupported".into()))
+        }
+        fn serialize_seq(self, _: Option<usize>) -> Result<Imp, E> {
+            Err(E("unsupported".into()))
+        }
+        fn serialize_tuple(self, _: usize) -> Result<Imp, E> {
+            Err(E("unsupported".into()))
+        }
+        fn serialize_tuple_struct(self, _: &'static str, _: usize) -> Result<Imp, E> {
+            Err(E("unsupported".into()))
+        }
+        fn serialize_tuple_variant(self, _: &'static str, _: u32, _: &'static str, _: usize) -> Result<Imp, E> {
+            Err(E("unsupported".into()))
+        }
+        fn serialize_map(self, _: Option<usize>) -> Result<Imp, E> {
+            Err(E("unsupported".into()))
+        }
+        fn serialize_struct(self, _: &'static str, _: usize) -> Result<Imp, E> {
+            Err(E("unsupported".into()))
+        }
+        fn serialize_struct_variant(self, _: &'static str, _: u32, _: &'static str, _: usize) -> Result<Imp, E> {
+            Err(E("unsupported".into()))
+        }
+    }
+
+    pub struct De<'de>(pub &'de [u8]);
+    impl<'de> de::Deserializer<'de> for De<'de> {
+        type Error = E;
+        fn is_human_readable(&self) -> bool {
+            false
+        }
+        fn deserialize_any<V: Visitor<'de>>(self, v: V) -> Result<V::Value, E> {
+            v.visit_borrowed_bytes(self.0)
+        }
+        fn deserialize_bytes<V: Visitor<'de>>(self, v: V) -> Result<V::Value, E> {
+            v.visit_borrowed_bytes(self.0)
+        }
+        fn deserialize_byte_buf<V: Visitor<'de>>(self, v: V) -> Result<V::Value, E> {
+            v.visit_byte_buf(self.0.to_vec())
+        }
+        fn deserialize_newtype_struct<V: Visitor<'de>>(self, _: &'static str, v: V) -> Result<V::Value, E> {
+            v.visit_newtype_struct(self)
+        }
+        serde::forward_to_deserialize_any! {
+            bool i8 i16 i32 i64 i128 u8 u16 u32 u64 u128 f32 f64 char str string
+            option unit unit_struct seq tuple tuple_struct map struct enum identifier ignored_any
+        }
+    }
+
+    pub fn to_octets<T: Serialize>(t: &T) -> Option<Vec<u8>> {
+        t.serialize(Ser).ok()
+    }
+    pub fn from_octets<'de, T: de::Deserialize<'de>>(o: &'de [u8]) -> Result<T, E> {
+        T::deserialize(De(o))
     }
 }
